@@ -89,6 +89,8 @@ def check_one_origin(ctx, rule, body, role):
                       'padding %s is the %s of the same statement as the table' % (roles[i], wf),
                       'padding %s is not the %s of the statement whose table is used (%s): %s' % (roles[i], wf, short(st_recv, 100) if st_recv is not None else None,
                                                                                                  [short(x, 100) for x in hits] or 'absent from the padding count'), where)
+        # .. and the count itself is what the table has beyond the proof's own generators: 2 * bits * (capacity - aggregation factor)
+        check_padding_count(ctx, rule, key, pad, where)
         # the padding must bound a `take` over a repeat of zero chained after the interleaved vectors
         st = strip_mut(static)
         shape_ok = st.tag == 'chain' and strip_mut(st[1]).tag == 'interleave' and ((strip_mut(st[2]).tag == 'adapt' and strip_mut(st[2])[1] == 'take') or strip_mut(st[2]).tag == 'repeatv')
@@ -99,6 +101,39 @@ def check_one_origin(ctx, rule, body, role):
                   'static scalars do not have the shape chain(interleave(..), take(repeat(0), padding)): %s' % short(static, 200), where)
         res.append({'bb': bb, 'recv': recv, 'statement': st_recv, 'static': static, 'pad': pad, 'dyn_scalars': a[2], 'dyn_points': a[3]})
     return res
+
+
+def check_padding_count(ctx, rule, key, pad, where):
+    """the padding count as a polynomial over the three statement quantities (helper calls looked through, checked arithmetic read
+    as arithmetic): the table holds 2 * bits * capacity points, the proof's own scalars cover 2 * bits * aggregation factor of them"""
+    from . import ilen
+    from .poly import pmul, padd
+    rep = ctx.rep
+    try:
+        e = ctx.eng.expand(pad)
+        got = ilen.ival(e)
+        q = {}
+        for role, wf in (('B', 'gens_capacity'), ('A', 'commitments'), ('C', 'party_capacity')):
+            hits = {canon(x) for x in walk(e) if x.tag == 'field' and x[1] == wf}
+            if len(hits) != 1:
+                raise ilen.NoLen('%d different %s in the padding count' % (len(hits), wf))
+            nm = hits.pop()
+            q[role] = ilen.atom('len(%s)' % nm if wf == 'commitments' else nm)
+        want = padd(pmul(ilen.const(2), pmul(q['B'], q['C'])), pmul(ilen.const(2), pmul(q['B'], q['A'])), -1)
+    except ilen.NoLen as ex:
+        rep.idiom_absent(rule, key + '/padding-count', 'the padding count is not an arithmetic expression over bit length, aggregation factor and capacity (%s): %s' % (ex, short(pad, 160)))
+        return
+    norm = lambda p_: {k: v for k, v in p_.items() if v != 0}
+    rep.check(norm(got) == norm(want), rule, key + '/padding-count', 'padding count = 2 * bits * capacity - 2 * bits * aggregation factor (what the table holds beyond the proof\'s own generators)',
+              'padding count is %s; the table holds 2 * bits * capacity points of which the proof uses 2 * bits * aggregation factor: expected %s' % (fmt_poly(got), fmt_poly(want)), where)
+
+
+def fmt_poly(p_):
+    def mono(k, v):
+        names = [(x.split('.')[-1] if x.endswith(('gens_capacity', 'party_capacity')) else 'len(' + x.split('.')[-1] if x.startswith('len(') and x.endswith('commitments)') else
+                  (x if len(x) < 60 else x[:28] + '..' + x[-28:])) for x in k]
+        return ('%+d' % v) + ''.join('*' + n for n in names)
+    return ' '.join(mono(k, v) for k, v in sorted(p_.items(), key=repr) if v != 0) or '0'
 
 
 def check_verify_msm(ctx, rule):
